@@ -277,3 +277,19 @@ package bt
 //@   requires (forall ((k Int)) (=> (and (<= 0 k) (< k (len nn))) (not (nil? (at nn k)))))
 //@ func bt.nodeUTXOsWrapper.MarshalJSON
 //@   requires (forall ((k Int)) (=> (and (<= 0 k) (< k (len nn))) (not (nil? (at nn k)))))
+
+// ---- size and fee accounting (C11) ----
+//@ func bt.(*Tx).SizeWithTypes
+//@   opt defs data_sum
+//@   requires (spec.out_scripts_nonnil tx) (spec.inputs_nonnil tx)
+//@   fresh result
+//@   ensures[C11.size_data_bytes] (and (not (nil? result)) (= (. result TotalDataBytes) (old (spec.data_bytes tx))))
+//@   ensures[C11.size_split] (=> (<= (old (spec.data_bytes tx)) (. result TotalBytes)) (= (+ (. result TotalStdBytes) (. result TotalDataBytes)) (. result TotalBytes)))
+//@   loop 0 invariant (= dataLen (spec.data_bytes_k tx (+ rangeindex 1)))
+//@   loop 0 invariant (spec.out_scripts_nonnil tx)
+
+//@ func bt.(*Tx).feesPaid
+//@   int-overflow check
+//@   requires (=> (not (nil? fees)) (spec.wf_quote fees))
+//@   requires (<= (. size TotalStdBytes) 2199023255552) (<= (. size TotalDataBytes) 2199023255552)
+//@   ensures[C11.fees_formula] (=> (= err nil) (and (not (nil? result)) (= (. result StdFeePaid) (spec.fee_of (old (. size TotalStdBytes)) (spec.fee_sat fees "standard") (spec.fee_bytes fees "standard"))) (= (. result DataFeePaid) (spec.fee_of (old (. size TotalDataBytes)) (spec.fee_sat fees "data") (spec.fee_bytes fees "data"))) (= (. result TotalFeePaid) (+ (. result StdFeePaid) (. result DataFeePaid)))))
